@@ -64,6 +64,10 @@ CHECKS = {
   "Generated records of all six kinds (every Option combination, boundary integers, empty / Unicode / multi-KiB strings) and arbitrary byte strings: encode equals the independent reference encoding and the reported length; decode of encoding++junk round-trips and consumes exactly n; every truncation fails; every single-byte mutation and arbitrary input agrees with the reference decoder (Ok / UnexpectedEof / invalid, record, consumed length), never panics, and decoded records re-encode canonically. Saved libFuzzer corpus replayed in every tier; thorough adds the coverage-guided campaign (cargo-fuzz target c12_decode with the same differential oracle in-target).",
   "Reference codec written from the format description; libFuzzer campaign pinned only approximately by -seed/-runs, its saved inputs are the reproducible unit.",
   "property-based testing (proptest) round-trip + differential decoding; coverage-guided fuzzing (cargo-fuzz/libFuzzer) with in-target differential oracle", "DESIGN.md §4 C12"),
+ "C13": ("exploration",
+  "Generated programs over 2-5 contenders (threads and child processes) acting simultaneously in rounds (RaftLog::open / Dump::new / drop) on a directory whose newest chunk is torn before every round; interleaving-independent oracle: at most one owner, refusals while owned, exactly one grant on a free directory, success after drop, files untouched by refusals and equal to exactly one recovery after a grant.",
+  "Kernel interleavings inside flock are stressed (barrier, many programs), not enumerated.",
+  "property-based testing (proptest): generated concurrent programs over real threads and processes, interleaving-independent invariants", "DESIGN.md §4 C13"),
 }
 
 ALL = [f"C{i:02d}" for i in range(1, 17)]
